@@ -145,6 +145,17 @@ CLAIMED = {
             'thread. Fault positions and schedules are enumerated/sampled, so fault_enumeration is the level.',
             'same scheduler trusted base as C04; stalls are long virtual sleeps so only the configured timeout can end them.',
             '§2.2, §3 C05'),
+    'C13': ('exploration',
+            'generated API/parallelism/outcome configurations x generated thread schedules on the deterministic scheduler (shim executor); multiset differential against sequential evaluation + thread-release invariants',
+            'pmap, piter, piter_fn, piter_multiplex and MultiplexIterator are driven with parallelism 0..3, buffers 0..3, 1..3 input '
+            'generators and four outcomes (exhaust, stop after m elements via num_steps or maybe_stop, an input raising at position '
+            'p, the mapped function raising on a value) under generated schedules. Checked: outputs are exactly the sequential '
+            'multiset on exhaustion (a duplicate-free sub-multiset otherwise), generator return values are collected, the consumer '
+            'sees the failure, every task submitted to the pool finishes, no virtual thread stays blocked (structural deadlock '
+            'detection) and MultiplexIterator shuts its pool down.',
+            'same scheduler trusted base as C04 (in particular: races that need a switch inside one bytecode sequence, e.g. a lock-free '
+            'shared generator, are not generated); early stop only for results that are Stoppable themselves.',
+            '§2.2, §3 C13'),
 }
 
 PENDING_REASON = 'check not built yet in this session (work in progress; see DESIGN.md §9 build order) - not claimed until its check exists'
